@@ -494,3 +494,33 @@ META["C18"] = dict(
     },
     assumptions=["for I/O faults the statement only promises that existing files are not modified without overwrite"],
 )
+
+META["C19"] = dict(
+    title="Path types accept exactly what the mode says; relative paths follow the config",
+    level="exploration",
+    level_text="Part A: valid mode strings of <=4 flags over {f,d,r,w,x,c,cc,F,D,R,W,X} (flag order shuffled; a sharded sample of "
+    "the ~1,000 modes in quick, all in thorough) x 33 path kinds (file, directory, fifo, symlinks, dangling symlink, missing "
+    "with/without parent, path through a file, '.', 'dir/..', '~', trailing slashes, empty, chmod 000/222/444/555 files, "
+    "000/222/333/555 directories and entries inside them) x working directories x spelling (relative, absolute, cwd=), judged by "
+    "an attempt-based OS oracle (open/listdir/create-and-remove, not os.access) in the same process after dropping "
+    "CAP_DAC_OVERRIDE/CAP_DAC_READ_SEARCH; also the error type, .relative and .absolute. Part B: config files nested 1-3 deep in "
+    "different directories (decoys with the same relative names in the process cwd), referring to each other and to Path_fr, "
+    "List[Path_fr], dataclass and inner-parser sub-files relatively, via --cfg / parse_path / default_config_files, with a "
+    "failure planted at a chosen depth; cwd before == after.",
+    level_note="Trusted: the oracle's reading of each flag; FIFO with r/w/c flags and creating through a dangling symlink are "
+    "'unspecified'. URL/fsspec flags are not exercised (no network). If the capability drop is refused the negative-permission "
+    "sub-space is not observed and the gate on permission_bits_enforced makes the run INCONCLUSIVE.",
+    shards=g(4, 16),
+    budget=g(50, 300),
+    technique="attempt-based OS oracle vs the real Path type in a capability-dropped process + nested-config relative-path oracle",
+    rule="A: a case is (set of mode flags, path kind); B: (depth, entry method, failing depth, path-typed keys present). Distinct "
+    "by hash; every case is non-trivial (a decision is judged or logged as unspecified).",
+    gates={
+        "mon.path_mode_checks": g(10000, 150000), "st.accept": g(500, 8000), "st.reject": g(5000, 80000),
+        "permission_bits_enforced": g(4, 16),
+        "st.kind.f000": g(100, 1000), "st.kind.d333": g(100, 1000), "st.kind.through-file": g(100, 1000), "st.kind.dangling-symlink": g(100, 1000),
+        "mon.nested_config_parses": g(300, 3000), "mon.relative_paths_checked": g(200, 2000),
+        "st.nested.depth3": g(50, 500), "st.nested.failing": g(30, 300),
+    },
+    assumptions=["the fixture is owned by the (capability-dropped) root user, so owner permission bits decide"],
+)
